@@ -657,6 +657,15 @@ class C03(Prop):
         if c.get("package"):
             return None
         a = self._ast(c)
+        # zone D62 (all()/exists() with a non-boolean body — ill-typed; the raw fold value leaks, a recorded finding): the Lean
+        # primitives do not promise fidelity on what such a fold hands to an enclosing operator (thorough seed 2:
+        # `(vz / vj in []) <= [-1].exists(x, x)` — both real runners agree, the model differed); the two real runners are
+        # still compared by the oracle, only the model line is withheld
+        try:
+            if a[0] != "raw" and nonbool_macro_body(a):
+                return None
+        except Exception:
+            pass
         try:
             return f"X {model_env(extra)} {model_expr(a, set(extra))}"
         except NotModelled:
